@@ -280,15 +280,32 @@ def key_code(cells, ac, comp, axis):
     Recognised: `v = atom.<axis>; v = EXPR(v)` inline in add_cell, or `self.helper(atom.<axis>)` with a straight-line helper
     (assignments, augmented assignments, sign-test ifs, returns)."""
     def helper(call):
-        if not (isinstance(call, ast.Call) and isinstance(call.func, ast.Attribute) and U(call.func.value) in ("self", "cls")
-                and call.func.attr in cells.methods and len(call.args) == 1 and U(call.args[0]) == f"atom.{axis}"):
+        """A method of the class or a function of its module that receives atom.<axis> (and possibly the cell size)."""
+        if not isinstance(call, ast.Call):
             return None
-        h = cells.methods[call.func.attr].node
-        params = [a.arg for a in h.args.args if a.arg not in ("self", "cls")]
-        if len(params) != 1:
-            raise AnalysisError(f"cell key helper {h.name} has an unexpected signature")
+        h = None
+        if isinstance(call.func, ast.Attribute) and U(call.func.value) in ("self", "cls") and call.func.attr in cells.methods:
+            h = cells.methods[call.func.attr].node
+            params = [a.arg for a in h.args.args if a.arg not in ("self", "cls")]
+            if any(U(d) == "staticmethod" for d in h.decorator_list):
+                params = [a.arg for a in h.args.args]
+        elif isinstance(call.func, ast.Name):
+            for st in cells.module.tree.body:
+                if isinstance(st, ast.FunctionDef) and st.name == call.func.id:
+                    h = st
+                    params = [a.arg for a in h.args.args]
+        if h is None or len(call.args) != len(params) or call.keywords:
+            return None
+        coord = [p_ for p_, a in zip(params, call.args) if U(a) == f"atom.{axis}"]
+        others = [(p_, a) for p_, a in zip(params, call.args) if U(a) != f"atom.{axis}"]
+        if len(coord) != 1 or not all(U(a) in ("size", "self.cellsize") for _, a in others):
+            return None
+        size_alias.update(p_ for p_, _ in others)
         body = [st for st in h.body if not (isinstance(st, ast.Expr) and isinstance(st.value, ast.Constant))]
-        return body, params[0], None
+        return body, coord[0], None
+
+    size_alias = SIZE_ALIASES
+    size_alias.clear()
 
     got = helper(comp)
     if got:
@@ -304,6 +321,9 @@ def key_code(cells, ac, comp, axis):
     raise AnalysisError(f"add_cell: the computation of the {axis} key component left the recognised shapes ({U(comp)[:50]})")
 
 
+SIZE_ALIASES = set()  # parameter names of a key helper that stand for the cell size (filled by key_code)
+
+
 class _Ret(Exception):
     def __init__(self, v):
         self.v = v
@@ -313,6 +333,8 @@ def _eval_key(stmts, var, result, neg, tval, size):
     """Evaluate straight-line key code on the class (sign, int(v) = tval): integer arithmetic only; the coordinate itself is
     never a value (it may appear only under int() and in sign tests)."""
     env = {"size": size}
+    for alias in SIZE_ALIASES:
+        env[alias] = size
 
     def ev(n):
         if isinstance(n, ast.Constant):
